@@ -146,6 +146,52 @@ def _call_parent(tree, n):
     return None
 
 
+def _log_name_leaves(ctx, f, e, depth=0):
+    """leaves of the log file name that are neither constants nor the root path"""
+    from .shared import reaching_defs
+
+    if depth > 5:
+        return [unparse(e)]
+    if isinstance(e, ast.Constant):
+        return []
+    if isinstance(e, ast.Attribute) and unparse(e) in ("self.root_path",):
+        return []
+    if isinstance(e, ast.Call):
+        d = ctx.m.dotted(f.rel, e.func) if isinstance(e.func, (ast.Name, ast.Attribute)) else None
+        if d in ("os.path.join", "os.path.abspath", "os.path.normpath", "str"):
+            out = []
+            for a in e.args:
+                out += _log_name_leaves(ctx, f, a, depth + 1)
+            return out
+        return [unparse(e)]
+    if isinstance(e, ast.Name):
+        out = []
+        vals = [v for v in reaching_defs(ctx, f, e, e.id)] if False else None
+        from .shared import defs_of
+
+        ds = [v for _, v in defs_of(ctx, f, e.id)]
+        if not ds:
+            return [e.id]
+        for v in ds:
+            if v is None:
+                out.append(e.id)
+            elif isinstance(v, ast.Call) and any(isinstance(a, ast.Name) and a.id == e.id for a in v.args):
+                # fname = os.path.join(root, fname): the other arguments count
+                for a in v.args:
+                    if not (isinstance(a, ast.Name) and a.id == e.id):
+                        out += _log_name_leaves(ctx, f, a, depth + 1)
+            else:
+                out += _log_name_leaves(ctx, f, v, depth + 1)
+        return out
+    if isinstance(e, (ast.BinOp, ast.JoinedStr)):
+        out = []
+        for x in ast.walk(e):
+            if isinstance(x, (ast.Name, ast.Attribute)) and not isinstance(ctx.m.parent.get(x), ast.Attribute):
+                out += _log_name_leaves(ctx, f, x, depth + 1)
+        return out
+    return [unparse(e)]
+
+
 def entry_points(ctx):
     roots = set()
     lf, _, _ = server_loop(ctx)
@@ -239,7 +285,12 @@ def run(ctx, R):
                 continue
             g = guarded_by(ctx, f, h.node, "debug_log")
             if h.what == "logging.basicConfig" and g == "T":
-                R.ok("C17.R2", where, k, l, "the optional debug log, guarded by the debug_log option")
+                fn = next((kw.value for kw in call.keywords if kw.arg == "filename"), None) if call is not None else None
+                bad_leaf = _log_name_leaves(ctx, f, fn) if fn is not None else ["no filename"]
+                if bad_leaf:
+                    R.violation("C17.R2", where, k, l, f"the debug log is opened for writing at a location built from {bad_leaf[0]}: a value from the configuration file (or any other computed text) can make the server truncate an arbitrary file; the log must be a fixed name under the root")
+                else:
+                    R.ok("C17.R2", where, k, l, "the optional debug log (fixed file name under the root), guarded by the debug_log option")
             else:
                 R.violation("C17.R2", where, k, l, f"{h.what}: {h.why}, reachable from the server entry points (indexing/queries must not create, modify or delete files)")
         elif h.cat == "net":
